@@ -52,20 +52,10 @@ func firstInstr(e engine.Edge) ssa.Instruction {
 	return b.Instrs[0]
 }
 
-// reachFromEdge explores from the target block of e (inclusive of its first instruction).
+// reachFromEdge explores from the target block of e (inclusive of its first instruction); the
+// branch fact established by e is known along the paths.
 func reachFromEdge(fn *ssa.Function, e engine.Edge, cut engine.EdgeSet, barrier func(ssa.Instruction) bool, visit func(ssa.Instruction) bool) ssa.Instruction {
-	b := e.To()
-	if len(b.Instrs) == 0 {
-		return nil
-	}
-	first := b.Instrs[0]
-	if barrier != nil && barrier(first) {
-		return nil
-	}
-	if visit != nil && visit(first) {
-		return first
-	}
-	return engine.Reach(fn, first, cut, barrier, visit)
+	return engine.ReachEdge(fn, e, cut, barrier, visit)
 }
 
 // errorPropagates (P8): the error result of call must not be dropped; it must be returned
